@@ -7,6 +7,15 @@ ROOT = os.path.dirname(os.path.dirname(os.path.abspath(__file__)))
 ALL = [f"C{i:02d}" for i in range(1, 21)]
 
 CLAIMED = {
+    "C05": dict(
+        text="Bounded symbolic execution (CrossHair/z3) of the real Server.dispatcher - one step per verb from a symbolic pre-state injected into the "
+             "dispatcher's own Connection, plus 2-3 command sessions with a symbolic middle command - compared reply by reply, state by state and tree by tree "
+             "with an independent sequential reference model; arguments of REST/TYPE/PROT/EPSV exhaustively over class-representative alphabets and searched over free Unicode.",
+        note="Trusted: the reference model (vlib/hlib/model.py) as specification, CrossHair/z3, scripted channels, listener stub, MemoryPathIO as backend. "
+             "Outside: sessions longer than 3 commands at session level, pipelining, arguments outside the stated universes.",
+        technique="bounded symbolic execution of the real Python code (CrossHair 0.0.110 + z3) against a reference model: inductive step + short sessions",
+        design_ref="DESIGN.md section 3 C05",
+    ),
     "C03": dict(
         text="Bounded symbolic execution (CrossHair/z3) of one inductive step of the real Server.dispatcher per verb of the live command table, from "
              "an arbitrary (symbolic) session pre-state with symbolic login / password strings: 503 + untouched spy backend + unchanged state before login; "
